@@ -1,3 +1,8 @@
--- This module serves as the root of the `JS` library.
--- Import modules here that should be built as part of the library.
 import JS.Basic
+import JS.Num
+import JS.PyOps
+import JS.Gen
+import JS.Pointer
+import JS.Resolver
+import JS.Keywords
+import JS.Eval
